@@ -31,6 +31,18 @@ ALLOWED_AXIOMS = {
     'ProofIrrelevance.proof_irrelevance', 'Eqdep.Eq_rect_eq.eq_rect_eq', 'JMeq.JMeq_eq',
     'ClassicalEpsilon.constructive_indefinite_description',
 }
+# further axioms/primitives declared by the standard library itself, by defining module
+STDLIB_AXIOM_MODULES = ('PrimFloat.', 'PrimInt63.', 'Uint63.', 'Sint63.', 'FloatAxioms.', 'FloatOps.', 'PrimArray.',
+                        'PropExtensionality.', 'IndefiniteDescription.', 'Description.', 'ClassicalUniqueChoice.',
+                        'ClassicalChoice.', 'Epsilon.', 'ClassicalFacts.', 'Classical_Pred_Type.', 'Eqdep.',
+                        'ClassicalDedekindReals.', 'FunctionalExtensionality.', 'Classical_Prop.',
+                        'ProofIrrelevance.', 'JMeq.', 'ClassicalEpsilon.')
+
+
+def axiom_allowed(name):
+    return name in ALLOWED_AXIOMS or name.startswith(STDLIB_AXIOM_MODULES)
+
+
 FORBIDDEN = re.compile(r'\b(Admitted|admit|Axiom|Axioms|Parameter|Parameters|Conjecture|Conjectures|'
                        r'Unset\s+Guard|bypass_check|Admit\s+Obligations|native_compute|'
                        r'Unset\s+Positivity|Unset\s+Universe|type-in-type|impredicative-set)\b')
@@ -157,24 +169,69 @@ def first_error(out):
     return f, name, out[idx:idx + 1500]
 
 
+STDLIB_AXIOM_BASENAMES = {
+    'sig_forall_dec', 'sig_not_dec', 'functional_extensionality_dep', 'classic', 'proof_irrelevance',
+    'eq_rect_eq', 'JMeq_eq', 'constructive_indefinite_description', 'constructive_definite_description',
+    'propositional_extensionality', 'epsilon_statement', 'dependent_unique_choice', 'relational_choice',
+}
+
+
+def parse_assumptions(out):
+    """names printed by Print Assumptions: entries start in column 0 inside an `Axioms:` block and may be
+    printed unqualified when their module is imported"""
+    names, closed, inblk = [], 0, False
+    for line in out.splitlines():
+        if line.startswith('Closed under the global context'):
+            closed += 1
+            inblk = False
+        elif line.startswith('Axioms:'):
+            inblk = True
+        elif inblk and line and not line[0].isspace():
+            m = re.match(r'([A-Za-z_][\w\.\']*)', line)
+            if m and (len(line) == len(m.group(1)) or line[len(m.group(1))] in ' :'):
+                names.append(m.group(1))
+            else:
+                inblk = False
+    return sorted(set(names)), closed
+
+
 def print_assumptions(prop):
-    """recompile Properties/Cxx.v by itself and collect the output of its Print Assumptions"""
+    """recompile Properties/Cxx.v by itself and collect the output of its Print Assumptions; every axiom is
+    resolved to its fully qualified name with `Locate` and accepted only if the standard library declares it"""
     f = f'theories/Properties/{prop}.v'
     rc, out = sh(f'timeout 900 coqc -Q theories LV {f}', cwd=COQ, timeout=960)
     src = open(os.path.join(COQ, f)).read()
     src_nc = re.sub(r'\(\*.*?\*\)', '', src, flags=re.S)
     theorems = re.findall(r'^\s*Theorem\s+(\w+)', src_nc, flags=re.M)
     printed = re.findall(r'Print\s+Assumptions\s+(\w+)', src_nc)
-    axioms = set()
-    closed = out.count('Closed under the global context')
-    for blk in re.findall(r'Axioms:\n((?:.+\n?)+?)(?=\n\S|\Z|Closed|Axioms:)', out):
-        pass
-    for m in re.finditer(r'^([A-Za-z_][\w\.]*)\s*:', out, flags=re.M):
-        nm = m.group(1)
-        if nm in ('Axioms', 'Fetching', 'File'):
-            continue
-        axioms.add(nm)
-    return {'rc': rc, 'theorems': theorems, 'printed': printed, 'axioms': sorted(axioms),
+    names, closed = parse_assumptions(out)
+    full, unknown = [], []
+    todo = [n for n in names if not (n.startswith(STDLIB_AXIOM_MODULES) or n in ALLOWED_AXIOMS)]
+    located = {}
+    if todo and rc == 0:
+        tmp = os.path.join(COQ, f'xpa_{prop}.v')
+        open(tmp, 'w').write(src + '\n' + ''.join(f'Locate {n}.\n' for n in todo))
+        rc2, out2 = sh(f'timeout 900 coqc -Q theories LV xpa_{prop}.v', cwd=COQ, timeout=960)
+        for ext in ('.v', '.vo', '.vok', '.vos', '.glob'):
+            try:
+                os.remove(tmp[:-2] + ext)
+            except OSError:
+                pass
+        try:
+            os.remove(os.path.join(COQ, f'.xpa_{prop}.aux'))
+        except OSError:
+            pass
+        for n in todo:
+            m = re.search(r'^(?:Constant|Axiom)\s+(\S*\b' + re.escape(n.split('.')[-1]) + r')\s*$', out2, flags=re.M)
+            if m:
+                located[n] = m.group(1)
+    for n in names:
+        q = located.get(n, n)
+        full.append(q)
+        ok = (q.startswith('Coq.') or q.startswith(STDLIB_AXIOM_MODULES) or q in ALLOWED_AXIOMS)
+        if not ok:
+            unknown.append(q)
+    return {'rc': rc, 'theorems': theorems, 'printed': printed, 'axioms': sorted(set(full)), 'unknown': unknown,
             'closed': closed, 'raw': out}
 
 
